@@ -94,6 +94,19 @@ func (s *Sched) decide(last int) (next *thread, deadlock bool) {
 	return s.threads[ord[k]], false
 }
 
+// Spawn adds a managed thread that runs body (called by the running managed thread in place of a go statement). The
+// new thread is enabled at once and runs when the scheduler chooses it; the execution ends when it has ended, too.
+func (s *Sched) Spawn(body func()) {
+	t := &thread{id: len(s.threads), resume: make(chan struct{})}
+	s.threads = append(s.threads, t)
+	go func() {
+		<-t.resume
+		body()
+		t.done = true
+		s.yield <- t
+	}()
+}
+
 // Outcome of one execution.
 type Outcome struct {
 	Points   []PointRec
@@ -150,7 +163,13 @@ func (s *Sched) Run(prefix []int, bodies []func()) Outcome {
 		}
 		last = t.id
 		s.cur = t
-		t.resume <- struct{}{}
+		select {
+		case t.resume <- struct{}{}:
+		case <-time.After(s.Watchdog):
+			// nobody waits for this turn: a goroutine the scheduler does not know has disturbed the hand-over
+			s.cur = nil
+			return Outcome{Points: s.Points, Stuck: true}
+		}
 		select {
 		case y := <-s.yield:
 			last = y.id
